@@ -1,5 +1,430 @@
-//! (stub)
+//! C04 — parsing is total and accepts exactly the fuzzy-hash grammar.
+//!
+//! E-ENUM with deviations 0 / 1 / 2: grammar-derived texts (deviation 0), every
+//! single-byte insert / delete / replace of seed texts (1), pairs of edits (2,
+//! thorough).  Oracle: a plain left-to-right scanner (refmodel::text::parse).
+
 use crate::common::*;
-use serde_json::Value;
-pub fn replay(_c: &Value) -> Result<(), String> { Err("not implemented".into()) }
-pub fn run(_ctx: &Ctx) -> Report { Report::new("model_checking") }
+use crate::corpus::ramp;
+use crate::hashobj::*;
+use refmodel::text::{self as rt, Kind, Origin, Rule};
+use serde_json::{json, Value};
+use ssdeep::{
+    DualFuzzyHash, FuzzyHash, LongDualFuzzyHash, LongFuzzyHash, LongRawFuzzyHash, ParseError, ParseErrorInfo,
+    ParseErrorKind, ParseErrorOrigin, RawFuzzyHash,
+};
+
+pub const STRICT: bool = cfg!(feature = "strict-parser");
+
+fn origin_of(o: ParseErrorOrigin) -> Origin {
+    match o {
+        ParseErrorOrigin::BlockSize => Origin::BlockSize,
+        ParseErrorOrigin::BlockHash1 => Origin::BlockHash1,
+        ParseErrorOrigin::BlockHash2 => Origin::BlockHash2,
+    }
+}
+fn kind_of(k: ParseErrorKind) -> Option<Kind> {
+    Some(match k {
+        ParseErrorKind::BlockSizeIsEmpty => Kind::BlockSizeIsEmpty,
+        ParseErrorKind::BlockSizeStartsWithZero => Kind::BlockSizeStartsWithZero,
+        ParseErrorKind::BlockSizeIsInvalid => Kind::BlockSizeIsInvalid,
+        ParseErrorKind::BlockSizeIsTooLarge => Kind::BlockSizeIsTooLarge,
+        ParseErrorKind::BlockHashIsTooLong => Kind::BlockHashIsTooLong,
+        ParseErrorKind::UnexpectedCharacter => Kind::UnexpectedCharacter,
+        ParseErrorKind::UnexpectedEndOfString => Kind::UnexpectedEndOfString,
+        _ => return None,
+    })
+}
+
+pub const TYPES: [&str; 6] =
+    ["RawFuzzyHash", "LongRawFuzzyHash", "FuzzyHash", "LongFuzzyHash", "DualFuzzyHash", "LongDualFuzzyHash"];
+/// entry points: 0 from_bytes, 1 from_bytes_with_last_index(idx=0), 2 idem (idx=usize::MAX), 3 str::parse
+pub const VARIANTS: usize = 4;
+
+enum Outcome<T> {
+    Panic(String),
+    Ok(T, usize),
+    Err(ParseError, usize),
+    Skipped,
+}
+
+fn call<T>(
+    t: &[u8],
+    variant: usize,
+    fb: fn(&[u8]) -> Result<T, ParseError>,
+    fbi: fn(&[u8], &mut usize) -> Result<T, ParseError>,
+    fs: fn(&str) -> Result<T, ParseError>,
+) -> (Outcome<T>, usize) {
+    let idx0 = if variant == 2 { usize::MAX } else { 0usize };
+    let mut idx = idx0;
+    let r = match variant {
+        0 => guarded(|| fb(t)),
+        1 | 2 => guarded(|| fbi(t, &mut idx)),
+        _ => match std::str::from_utf8(t) {
+            Ok(s) => guarded(|| fs(s)),
+            Err(_) => return (Outcome::Skipped, idx0),
+        },
+    };
+    (
+        match r {
+            Err(p) => Outcome::Panic(p),
+            Ok(Ok(h)) => Outcome::Ok(h, idx),
+            Ok(Err(e)) => Outcome::Err(e, idx),
+        },
+        idx0,
+    )
+}
+
+fn judge_err(e: &ParseError, idx: usize, idx0: usize, variant: usize, exp: &Result<rt::Parsed, rt::Rejected>) -> Result<(), String> {
+    match exp {
+        Ok(_) => Err(format!("rejected with {:?}/{:?} but the grammar accepts the text", e.origin(), e.kind())),
+        Err(rej) => {
+            if origin_of(e.origin()) != rej.origin {
+                return Err(format!("error names {:?} but the offending part is {:?}", e.origin(), rej.origin));
+            }
+            match kind_of(e.kind()) {
+                Some(k) if rej.kinds.contains(&k) => {}
+                _ => return Err(format!("error kind {:?} is not among the conditions of that part {:?}", e.kind(), rej.kinds)),
+            }
+            if (variant == 1 || variant == 2) && idx != idx0 {
+                return Err("caller's index modified on failure".into());
+            }
+            Ok(())
+        }
+    }
+}
+
+fn check_plain<T: Plain>(t: &[u8], variant: usize) -> Result<&'static str, String> {
+    let rule = Rule { cap1: 64, cap2: T::CAP2, count_normalized: T::NORM && !STRICT, strict: STRICT };
+    let exp = rt::parse(t, rule);
+    let (out, idx0) = call::<T>(t, variant, T::parse_bytes, T::parse_bytes_idx, T::parse_str);
+    match out {
+        Outcome::Skipped => Ok("skipped-not-utf8"),
+        Outcome::Panic(p) => Err(format!("panic: {}", p)),
+        Outcome::Ok(h, idx) => match &exp {
+            Err(rej) => Err(format!(
+                "accepted (is_valid={}) but the grammar rejects it: {:?} {:?}",
+                h.valid(),
+                rej.origin,
+                rej.kinds
+            )),
+            Ok(p) => {
+                let (e1, e2) = if T::NORM {
+                    (refmodel::normalize(&p.bh1), refmodel::normalize(&p.bh2))
+                } else {
+                    (p.bh1.clone(), p.bh2.clone())
+                };
+                if !h.valid() || !h.ref_valid() {
+                    return Err("Ok, but the object fails the validity check".into());
+                }
+                if h.log() != p.log || h.bh1() != &e1[..] || h.bh2() != &e2[..] {
+                    return Err(format!("decoded content differs: got {} expected {}", h, rt::format(p.log, &e1, &e2)));
+                }
+                if (variant == 1 || variant == 2) && idx != p.end {
+                    return Err(format!("end index {} != {}", idx, p.end));
+                }
+                Ok("ok")
+            }
+        },
+        Outcome::Err(e, idx) => judge_err(&e, idx, idx0, variant, &exp).map(|_| "err"),
+    }
+}
+
+fn check_dual<D: Dual>(t: &[u8], variant: usize) -> Result<&'static str, String> {
+    let rule = Rule { cap1: 64, cap2: D::CAP2, count_normalized: false, strict: STRICT };
+    let exp = rt::parse(t, rule);
+    let (out, idx0) = call::<D>(t, variant, D::parse_bytes, D::parse_bytes_idx, D::parse_str);
+    match out {
+        Outcome::Skipped => Ok("skipped-not-utf8"),
+        Outcome::Panic(p) => Err(format!("panic: {}", p)),
+        Outcome::Ok(h, idx) => match &exp {
+            Err(rej) => Err(format!(
+                "accepted (is_valid={}) but the grammar rejects it: {:?} {:?}",
+                guarded(|| h.valid()).unwrap_or(false),
+                rej.origin,
+                rej.kinds
+            )),
+            Ok(p) => {
+                if !guarded(|| h.valid())? {
+                    return Err("Ok, but the object fails the validity check".into());
+                }
+                let raw = guarded(|| h.to_raw())?;
+                let n = h.as_norm();
+                if !raw.ref_valid() || !n.ref_valid() {
+                    return Err("Ok, but raw / normalized part fails the validity predicate".into());
+                }
+                if raw.log() != p.log
+                    || raw.bh1() != &p.bh1[..]
+                    || raw.bh2() != &p.bh2[..]
+                    || n.log() != p.log
+                    || n.bh1() != &refmodel::normalize(&p.bh1)[..]
+                    || n.bh2() != &refmodel::normalize(&p.bh2)[..]
+                {
+                    return Err(format!("decoded content differs: raw {} norm {}", raw, n));
+                }
+                if (variant == 1 || variant == 2) && idx != p.end {
+                    return Err(format!("end index {} != {}", idx, p.end));
+                }
+                Ok("ok")
+            }
+        },
+        Outcome::Err(e, idx) => judge_err(&e, idx, idx0, variant, &exp).map(|_| "err"),
+    }
+}
+
+pub fn check_one(t: &[u8], ty: usize, variant: usize) -> Result<&'static str, String> {
+    match ty {
+        0 => check_plain::<RawFuzzyHash>(t, variant),
+        1 => check_plain::<LongRawFuzzyHash>(t, variant),
+        2 => check_plain::<FuzzyHash>(t, variant),
+        3 => check_plain::<LongFuzzyHash>(t, variant),
+        4 => check_dual::<DualFuzzyHash>(t, variant),
+        5 => check_dual::<LongDualFuzzyHash>(t, variant),
+        _ => Err("bad type".into()),
+    }
+}
+
+pub fn replay(c: &Value) -> Result<(), String> {
+    let t = unhex(c["text_hex"].as_str().ok_or("text_hex")?);
+    let ty = TYPES.iter().position(|n| Some(*n) == c["type"].as_str()).ok_or("type")?;
+    let variant = c["variant"].as_u64().ok_or("variant")? as usize;
+    if c["strict"].as_bool() != Some(STRICT) {
+        return Err("this case was recorded under the other parser build (replay through ./check --replay)".into());
+    }
+    check_one(&t, ty, variant).map(|_| ())
+}
+
+fn b64s(v: &[u8]) -> Vec<u8> {
+    v.iter().map(|&x| refmodel::B64[x as usize]).collect()
+}
+
+/// Block-hash texts for capacity `cap`: a run of length l of 'A' / '/' / 'b' at
+/// position p with a run-free tail q — raw and normalised lengths below, at and
+/// above the capacity.
+fn bh_texts(cap: usize, thorough: bool) -> Vec<Vec<u8>> {
+    let mut v: Vec<Vec<u8>> = vec![];
+    let mut ps = vec![0usize, 1, 2];
+    for p in cap.saturating_sub(8)..=cap + 1 {
+        ps.push(p);
+    }
+    let ls: Vec<usize> = if thorough {
+        vec![0, 1, 2, 3, 4, 5, 6, 7, 8, 9, 12, cap - 1, cap, cap + 1, cap + 2, cap + 3, cap + 4, cap + 5, cap + 8, cap + 10, 2 * cap, 200]
+    } else {
+        vec![0, 1, 3, 4, 5, 7, 8, cap, cap + 1, cap + 3, cap + 4, cap + 10, 200]
+    };
+    let syms: &[u8] = if thorough { &[0, 63, 27] } else { &[0, 63] };
+    for &p in &ps {
+        for &l in &ls {
+            for &q in &[0usize, 1, 3] {
+                for &sym in syms {
+                    if l == 0 && sym != syms[0] {
+                        continue;
+                    }
+                    let mut s = b64s(&ramp(p, 0));
+                    s.extend(std::iter::repeat(refmodel::B64[sym as usize]).take(l));
+                    s.extend(b64s(&ramp(q, p + 7)));
+                    v.push(s);
+                }
+            }
+        }
+    }
+    // two runs: first fits, second crosses the capacity raw but not normalised
+    for &(l1, g, l2) in &[(4usize, 1usize, 4usize), (8, 0, 8), (5, 2, cap), (cap / 2, 1, cap / 2 + 3), (4, cap - 8, 4), (4, cap - 7, 4), (4, cap - 6, 8)] {
+        let mut s = vec![b'A'; l1];
+        s.extend(b64s(&ramp(g, 3)));
+        s.extend(vec![b'/'; l2]);
+        v.push(s.clone());
+        s.push(b'x');
+        v.push(s);
+    }
+    v.sort();
+    v.dedup();
+    v
+}
+
+pub fn corpus(thorough: bool) -> (Vec<Vec<u8>>, usize) {
+    let valid_bs: Vec<Vec<u8>> = (0..31).map(|n| format!("{}", 3u64 << n).into_bytes()).collect();
+    let mut bss: Vec<Vec<u8>> = vec![b"3".to_vec(), b"6144".to_vec(), b"3221225472".to_vec()];
+    let nvalid_head = bss.len();
+    for s in [
+        "0", "03", "4", "16", "4294967295", "4294967296", "6442450944", "", "+3", "3 ", " 3", "3a", "00", "30", "-3",
+        "99999999999999999999999999999999999999999999999999999999999999999999999999999999",
+    ] {
+        bss.push(s.as_bytes().to_vec());
+    }
+    let tails: [&[u8]; 8] = [b"", b",", b",name", b",a:b,c", b":", b"@", b"\xff", b"A"];
+    let small: Vec<Vec<u8>> = vec![
+        b"".to_vec(),
+        b"A".to_vec(),
+        b"AAAA".to_vec(),
+        b64s(&ramp(32, 3)),
+        b64s(&ramp(33, 3)),
+        b64s(&ramp(64, 5)),
+        vec![b'A'; 38],
+    ];
+    let f64 = bh_texts(64, thorough);
+    let f32 = bh_texts(32, thorough);
+    let mk = |bs: &[u8], a: &[u8], b: &[u8], t: &[u8]| {
+        let mut x = bs.to_vec();
+        x.push(b':');
+        x.extend(a);
+        x.push(b':');
+        x.extend(b);
+        x.extend(t);
+        x
+    };
+    let mut texts: Vec<Vec<u8>> = vec![];
+    for (bi, bs) in bss.iter().enumerate() {
+        for (ti, t) in tails.iter().enumerate() {
+            if bi < nvalid_head || ti == 0 {
+                for a in &f64 {
+                    for b in &small {
+                        if bi == 0 || ti < 2 {
+                            texts.push(mk(bs, a, b, t));
+                        }
+                    }
+                }
+                for a in &small {
+                    for b in f32.iter().chain(f64.iter()) {
+                        if bi == 0 || ti < 2 {
+                            texts.push(mk(bs, a, b, t));
+                        }
+                    }
+                }
+            } else {
+                texts.push(mk(bs, b"AB", b"CD", t));
+            }
+        }
+    }
+    // every valid block size spelling, with small contents and every tail
+    for bs in &valid_bs {
+        for t in tails.iter() {
+            texts.push(mk(bs, b"AB", b"CD", t));
+            texts.push(mk(bs, b"AAAAB", b"", t));
+        }
+    }
+    // truncated texts
+    for a in &small {
+        let mut x = b"3:".to_vec();
+        x.extend(a);
+        texts.push(x.clone());
+        x.push(b',');
+        texts.push(x);
+    }
+    for s in ["3", "", ":", "::", "3::", "3:::", "3::,", ",", "3,:"] {
+        texts.push(s.as_bytes().to_vec());
+    }
+    texts.sort();
+    texts.dedup();
+    let nbase = texts.len();
+    // deviation 1: every single-byte edit of strided seeds
+    let nseeds = if thorough { 2000 } else { 400 };
+    let seeds: Vec<Vec<u8>> = texts.iter().step_by((nbase / nseeds).max(1)).cloned().collect();
+    let bytes = [b':', b',', b'A', b'/', b'0', b'9', b'@', 0u8, 0x80, 0xff];
+    let mut edits: Vec<Vec<u8>> = vec![];
+    let edit1 = |s: &Vec<u8>, out: &mut Vec<Vec<u8>>| {
+        for pos in 0..=s.len() {
+            for &c in &bytes {
+                let mut x = s.clone();
+                x.insert(pos, c);
+                out.push(x);
+                if pos < s.len() && s[pos] != c {
+                    let mut y = s.clone();
+                    y[pos] = c;
+                    out.push(y);
+                }
+            }
+            if pos < s.len() {
+                let mut z = s.clone();
+                z.remove(pos);
+                out.push(z);
+            }
+            // truncation at every offset
+            out.push(s[..pos].to_vec());
+        }
+    };
+    for s in &seeds {
+        edit1(s, &mut edits);
+    }
+    // deviation 2 (thorough): every pair of edits on a small set of short seeds
+    if thorough {
+        let short: Vec<Vec<u8>> = vec![
+            b"3:AB:CD".to_vec(),
+            b"6:AAAAB:C,x".to_vec(),
+            b"12:AAAA:".to_vec(),
+            mk(b"3", &vec![b'A'; 66], b"B", b""),
+            mk(b"3", b"B", &vec![b'A'; 34], b",n"),
+        ];
+        for s in &short {
+            let mut e1 = vec![];
+            edit1(s, &mut e1);
+            e1.sort();
+            e1.dedup();
+            for x in e1.iter() {
+                if x.len() <= 14 {
+                    edit1(x, &mut edits);
+                }
+            }
+        }
+    }
+    texts.extend(edits);
+    texts.sort();
+    texts.dedup();
+    // simplest first, so that the first recorded counterexample is a shortest one
+    texts.sort_by(|a, b| a.len().cmp(&b.len()).then_with(|| a.cmp(b)));
+    (texts, nbase)
+}
+
+pub fn run(ctx: &Ctx) -> Report {
+    let mut rep = Report::new("model_checking");
+    let thorough = ctx.tier == Tier::Thorough;
+    let (texts, nbase) = corpus(thorough);
+    let shards = 256usize;
+    let per = (texts.len() + shards - 1) / shards;
+    let acc = par_shards(shards, |s, acc| {
+        let lo = s * per;
+        let hi = ((s + 1) * per).min(texts.len());
+        for ti in lo..hi.max(lo) {
+            let t = &texts[ti];
+            for ty in 0..6 {
+                for variant in 0..VARIANTS {
+                    match check_one(t, ty, variant) {
+                        Ok("skipped-not-utf8") => {
+                            acc.bump("skipped-not-utf8");
+                        }
+                        Ok(o) => {
+                            acc.evaluations += 1;
+                            acc.bump(&format!("{}:{}", TYPES[ty], o));
+                        }
+                        Err(e) => {
+                            acc.evaluations += 1;
+                            let class: String = e.split(|c| c == ':' || c == '(').next().unwrap_or("").trim().to_string();
+                            acc.violation(
+                                format!("{} entry{} [{}] text={}", TYPES[ty], variant, class, show(&t[..t.len().min(90)])),
+                                e,
+                                json!({"text_hex": hex(t), "text": show(t), "type": TYPES[ty], "variant": variant, "strict": STRICT}),
+                            );
+                        }
+                    }
+                }
+            }
+            acc.nontrivial += 1;
+            if ti % 50_000 == 7 {
+                acc.sample(json!({"text": show(t)}));
+            }
+        }
+    });
+    acc.into_report(&mut rep, if STRICT { "parse_strict_parser_build" } else { "parse_default_parser_build" });
+    rep.set("texts", texts.len());
+    rep.set("grammar_texts_deviation_0", nbase);
+    rep.set("edited_texts_deviation_1_2", texts.len() - nbase);
+    rep.set("strict_parser_build", STRICT);
+    rep.set("exhaustive", true);
+    rep.set(
+        "rule",
+        "texts = products of block-size spellings (31 valid; 0, 03, 4, 16, 2^32-1, 2^32, 80 digits, empty, signs, spaces) x block-hash texts (a run of length l at position p with tail q: raw / normalised lengths below, at, above the capacities 32 and 64; two-run overflow texts) x tails (none, comma, name, colon, '@', 0xff, 'A'); deviation 1 = every single-byte insert/replace/delete/truncate at every offset of strided seeds with bytes {: , A / 0 9 @ 00 80 ff}; deviation 2 (thorough) = all pairs of edits of five short seeds.  Texts are de-duplicated (distinct_nontrivial counts distinct texts); each is parsed into all six types through from_bytes, from_bytes_with_last_index (index preset 0 and usize::MAX) and str::parse.  evaluations counts parses.",
+    );
+    rep.assume("the error *kind* only has to be one of the error conditions the offending field exhibits (a field can be both too long and wrongly terminated); the offset is a hint and is not checked");
+    rep.assume("under the strict parser a field of exactly N symbols followed by a non-terminator may be reported as too long (that scanner stops after N symbols)");
+    rep
+}
